@@ -470,62 +470,35 @@ RECV = f"{ASH}:AshProtocol.data_received"
 
 
 def _dead_else_raises(ctx):
-    """T-EXH: the `else: raise` of the reserved-byte dispatch in data_received and of the isinstance chain in
-    frame_received are dead when the chains are exhaustive; returns the dead Raise nodes (or [] if not provable)."""
+    """T-EXH by exploration: `raise` statements written directly in frame_received / data_received that no path reaches
+    when the function is explored over its whole input domain - frame_received over exactly the classes of parse_frame's
+    dispatch list, data_received over {each member of RESERVED_WITHOUT_ESCAPE, no reserved byte} x {discarding, not} with
+    every parse outcome - are dead (the `else: raise` of an exhaustive dispatch).  Returns those Raise nodes."""
     repo = ctx.repo
+    cls = ash_cls(ctx)
     dead = []
-    # frame_received: isinstance chain over exactly parse_frame's dispatch classes
+    # frame_received
     fr = repo.func(f"{ASH}:AshProtocol.frame_received")
-    classes = set(dispatch_classes(ctx))
-    for n in ast.walk(fr.node):
-        if isinstance(n, ast.If):
-            chain, cur, tested = [], n, set()
-            while isinstance(cur, ast.If):
-                t = cur.test
-                if (isinstance(t, ast.Call) and text(t.func) == "isinstance" and len(t.args) == 2
-                        and isinstance(t.args[0], ast.Name) and text(t.args[0]) == text(n.test.args[0] if isinstance(n.test, ast.Call) and n.test.args else t.args[0])
-                        and isinstance(t.args[1], ast.Name)):
-                    tested.add(t.args[1].id)
-                else:
-                    tested = None
-                    break
-                if len(cur.orelse) == 1 and isinstance(cur.orelse[0], ast.If):
-                    cur = cur.orelse[0]
-                else:
-                    tail = cur.orelse
-                    break
-            if tested is not None and tested >= classes:
-                dead += [s for s in tail if isinstance(s, ast.Raise)]
-            break
-    # data_received: == chain over RESERVED_WITHOUT_ESCAPE on the byte selected by membership in that set
+    px = PX(repo, inline=lambda g, aw: False)
+    reached = set()
+    for cn in dispatch_classes(ctx):
+        for p in px.explore(fr, lambda: (self_obj(cls, {}), {"frame": frame_obj(ctx, cn)})):
+            reached |= {e.line for e in p.events if e.kind == "raise" and e.func == fr.short}
+    from .util import walk_no_nested
+
+    dead += [n for n in walk_no_nested(fr.node) if isinstance(n, ast.Raise) and n.lineno not in reached]
+    # data_received
     dr = repo.func(RECV)
-    rwe = {int(x) for x in repo.get(ASH, "RESERVED_WITHOUT_ESCAPE")}
-    members = repo.cls(ASH, "Reserved").members()
-    # the selected byte is a member of RESERVED_WITHOUT_ESCAPE: the membership test may live in data_received or in a helper
-    # of the class (R02.2 explores the selection and reports any path on which the dispatch falls through)
-    src_ok = any(isinstance(n, ast.Compare) and isinstance(n.ops[0], ast.In) and text(n.comparators[0]) == "RESERVED_WITHOUT_ESCAPE"
-                 for n in ast.walk(dr.cls.node))
-    for n in ast.walk(dr.node):
-        if (isinstance(n, ast.If) and isinstance(n.test, ast.Compare) and isinstance(n.test.left, ast.Name) and len(n.test.comparators) == 1
-                and text(n.test.comparators[0]).startswith("Reserved.")):
-            var = n.test.left.id
-            cur, tested = n, set()
-            while isinstance(cur, ast.If):
-                t = cur.test
-                if (isinstance(t, ast.Compare) and len(t.ops) == 1 and isinstance(t.ops[0], ast.Eq) and text(t.left) == var
-                        and text(t.comparators[0]).startswith("Reserved.") and text(t.comparators[0])[9:] in members):
-                    tested.add(members[text(t.comparators[0])[9:]].value)
-                else:
-                    tested = None
-                    break
-                if len(cur.orelse) == 1 and isinstance(cur.orelse[0], ast.If):
-                    cur = cur.orelse[0]
-                else:
-                    tail = cur.orelse
-                    break
-            if tested is not None and src_ok and tested >= rwe:
-                dead += [s for s in tail if isinstance(s, ast.Raise)]
-            break
+    models, rwe = _scan_models(ctx)
+    MAX = const(ctx, ASH, "MAX_BUFFER_SIZE", int)
+    reached = set()
+    for disc in (False, True):
+        px = PX(repo, models=models, inline=inline_ash(stop=("frame_received", "_write_frame", "_unstuff_bytes")), while_bound=1, refine_membership=True,
+                loop_iters=(0, 1, 2))
+        paths = px.explore(dr, lambda: (self_obj(cls, {"_buffer": Sym("B"), "_discarding_until_next_flag": disc, "_rx_seq": Sym("rx")}), {"data": Sym("data")}))
+        for p in paths + px.truncated_paths:
+            reached |= {e.line for e in p.events if e.kind == "raise" and e.func == dr.short}
+    dead += [n for n in walk_no_nested(dr.node) if isinstance(n, ast.Raise) and n.lineno not in reached]
     return dead
 
 
